@@ -57,6 +57,15 @@ Theorem C09_nesterov_inflation_old_refuted :
         (distance_wrapper (finish 0%R (inflation (ty c0) (radius c0) (ty c1) (radius c1)) (EConverged g))).
 Proof. exact nesterov_inflation_old_refuted. Qed.
 
+(** the hypotheses [wf] hold for the Spec/Shapes.v sets for which C03 proves the colliders'
+    support functions correct: sphere = centre inflated by the radius, capsule (rigid pose) =
+    axis segment inflated by the radius *)
+Theorem C09_sphere_wf : forall c r, (0 <= r)%R -> wf (sphere_coll c r).
+Proof. exact sphere_coll_wf. Qed.
+
+Theorem C09_capsule_wf : forall T r h, (0 <= r)%R -> is_rotation (rot T) -> wf (capsule_coll T r h).
+Proof. exact capsule_coll_wf. Qed.
+
 Theorem C09_dispatch_table :
   forallb (fun t0 => forallb (fun t1 =>
      match support_dispatch t0 t1 with
@@ -87,5 +96,7 @@ Print Assumptions C09_nesterov_inflation_consistent.
 Print Assumptions C09_nesterov_distance_exact_if_loop_exact.
 Print Assumptions C09_nesterov_inflation_old_refuted.
 Print Assumptions C09_dispatch_table.
+Print Assumptions C09_sphere_wf.
+Print Assumptions C09_capsule_wf.
 Print Assumptions C09_nonvacuous.
 Print Assumptions C09_values_nonvacuous.
